@@ -79,13 +79,14 @@ class Variation:
 
     def __init__(self, rng=None, *, st_perm=None, sess_perm=None, shift=0, evse_kinds=None, dict_shuffle=True,
                  vtypes=True, constraints="none", con_perm=False, mutate=False, twostage=False,
-                 store_hist=True):
+                 store_hist=True, est_seed=0):
         self.rng = rng or random.Random(0)
         self.st_perm, self.sess_perm, self.shift = st_perm, sess_perm, shift
         self.evse_kinds = evse_kinds
         self.dict_shuffle, self.vtypes = dict_shuffle, vtypes
         self.constraints, self.con_perm = constraints, con_perm
         self.mutate, self.twostage, self.store_hist = mutate, twostage, store_hist
+        self.est_seed = est_seed
 
     def describe(self):
         return {k: v for k, v in self.__dict__.items() if k != "rng"}
@@ -190,6 +191,7 @@ class Replay:
         self.net._verif_cb = self.on_post_charging
         sess = st["sess"]
         self.evs = {}
+        self.est = {}
         events = []
         order = list(range(len(sess)))
         if var.sess_perm:
@@ -197,8 +199,14 @@ class Replay:
                     [i for i in order if i not in var.sess_perm]
         for i0 in order:
             x = sess[i0]
+            # the user's *estimate* of the departure is irrelevant to the simulator itself (only
+            # schedulers read it): vary it so that nothing in the simulator can depend on it
+            est = x["dep"] + random.Random("%s-%d" % (var.est_seed, i0)).choice([-1, 0, 0, 2, 5])
+            if est <= x["arr"]:
+                est = x["dep"]
+            self.est[i0 + 1] = est + self.k
             ev = EV(x["arr"] + self.k, x["dep"] + self.k, x["req"] / KWH, sid(x["st"]), vid(i0 + 1),
-                    make_battery(x, var))
+                    make_battery(x, var), estimated_departure=est + self.k)
             self.evs[i0 + 1] = ev
             events.append(PluginEvent(x["arr"] + self.k, ev))
         rec = [RecomputeEvent(r + self.k) for r in st["recomp"]]
@@ -318,6 +326,7 @@ class Replay:
             self._chk("C05", "session.station_id", sid(x["st"]), s.station_id)
             self._chk("C05", "session.arrival", x["arr"] + self.k, s.arrival)
             self._chk("C05", "session.departure", x["dep"] + self.k, s.departure)
+            self._chk("C05", "session.estimated_departure", self.est[i], s.estimated_departure)
             self._chk("C05", "session.current_time", t, s.current_time)
             self._chk("C05", "session.requested_energy", x["req"] / KWH, s.requested_energy,
                       close(s.requested_energy, x["req"] / KWH))
